@@ -18,6 +18,9 @@ EXACT_CLASSES = {"Solver", "SolverCacheless", "SolverComposite", "SolverReplacem
 APPROX_CLASSES = {"SolverVSA"}
 
 
+STRUCTURAL = {"new", "branch", "drop", "pickle", "add", "merge", "combine"}
+
+
 class Violation(Exception):
     def __init__(self, clause, detail):
         super().__init__(clause)
@@ -30,9 +33,13 @@ class HarnessError(Exception):
 
 
 class Handle:
-    __slots__ = ("solver", "ref", "cls", "kw", "lineage", "alive", "mode", "tainted", "origin")
+    __slots__ = ("solver", "ref", "cls", "kw", "lineage", "alive", "mode", "tainted", "origin", "parent", "added",
+                 "twin")
 
-    def __init__(self, solver, ref, cls, kw, lineage, mode, origin):
+    def __init__(self, solver, ref, cls, kw, lineage, mode, origin, parent=None):
+        self.parent = parent  # index of the handle this one was branched from (ancestry for merge)
+        self.added = []  # AST hashes of constraints the user added to this handle or its ancestors (C16)
+        self.twin = None
         self.solver = solver
         self.ref = ref
         self.cls = cls
@@ -53,6 +60,9 @@ def _claripy_frame(tb):
             mod = fn.split("/claripy/", 1)[1].rsplit(".", 1)[0].replace("/", ".")
             best = f"{mod}.{fs.f_code.co_qualname}"
     return best
+
+
+_CURRENT_SEAM = None
 
 
 class Z3Seam:
@@ -79,47 +89,60 @@ class Z3Seam:
         self.on_check = None  # optional callback(solver)  (C20 confinement monitor / scheduler boundary)
 
     def install(self):
+        """Substitute z3.Solver.check/reason_unknown ONCE per process; the substituted functions dispatch to the
+        seam of the current run (workers execute many runs back to back)."""
         import z3
 
-        if self.installed:
-            return
+        global _CURRENT_SEAM
+        _CURRENT_SEAM = self
         self.installed = True
-        seam = self
-        self.z3 = z3
-        self.orig_check = z3.Solver.check
-        self.orig_reason = z3.Solver.reason_unknown
+        if getattr(z3.Solver, "_verif_patched", False):
+            return
+        z3.Solver._verif_patched = True
+        orig_check = z3.Solver.check
+        orig_reason = z3.Solver.reason_unknown
         refctx = S.ref_ctx()
+        unknown = z3.unknown
 
         def check(slf, *assumptions):
-            if slf.ctx is refctx or getattr(slf, "_verif_ref", False):
-                return seam.orig_check(slf, *assumptions)
+            seam = _CURRENT_SEAM
+            if seam is None or slf.ctx is refctx:
+                return orig_check(slf, *assumptions)
             seam.total += 1
             seam.op_checks += 1
             if seam.on_check is not None:
                 seam.on_check(slf, assumptions)
-            f = seam.plan.get((seam.cur_op, seam.op_checks))
+            f = seam.plan.get((seam.cur_op, seam.op_checks)) if seam.plan else None
             if f is not None:
                 kind, phase = f
                 seam.fired.append([seam.cur_op, seam.op_checks, kind, phase])
                 if phase == "late":
-                    seam.orig_check(slf, *assumptions)
+                    orig_check(slf, *assumptions)
                 slf._verif_reason = seam.REASONS[kind]
-                return z3.unknown
+                return unknown
             slf._verif_reason = None
-            return seam.orig_check(slf, *assumptions)
+            return orig_check(slf, *assumptions)
 
         def reason_unknown(slf):
             r = getattr(slf, "_verif_reason", None)
             if r is not None:
                 return r
-            return seam.orig_reason(slf)
+            return orig_reason(slf)
 
         z3.Solver.check = check
         z3.Solver.reason_unknown = reason_unknown
 
+    def uninstall(self):
+        global _CURRENT_SEAM
+        if _CURRENT_SEAM is self:
+            _CURRENT_SEAM = None
+
     def begin_op(self, idx):
         self.cur_op = idx
         self.op_checks = 0
+
+
+_SERIAL = {"n": 0, "salt": 0}
 
 
 def install_serial_hash(claripy, salt):
@@ -128,14 +151,18 @@ def install_serial_hash(claripy, salt):
     from .rng import mix64
 
     Frontend = claripy.frontend.frontend.Frontend
-    state = {"n": 0}
+    _SERIAL["n"] = 0
+    _SERIAL["salt"] = salt
+    if getattr(Frontend, "_verif_patched", False):
+        return
+    Frontend._verif_patched = True
 
     def __hash__(self):
         d = self.__dict__
         h = d.get("_verif_serial")
         if h is None:
-            state["n"] += 1
-            h = mix64(salt ^ state["n"]) & ((1 << 60) - 1)
+            _SERIAL["n"] += 1
+            h = mix64(_SERIAL["salt"] ^ _SERIAL["n"]) & ((1 << 60) - 1)
             d["_verif_serial"] = h
         return h
 
@@ -159,7 +186,9 @@ class Machine:
         self.seam = seam
         self.base_ref = None
         self.used_specs = []  # specs involved in the op under check (for the alphabet filter)
-        self.errors = claripy.errors
+        self.dry = claripy is None  # dry = reference/handle bookkeeping only (rebuilding state after a restart)
+        self.errors = claripy.errors if claripy is not None else None
+        self.start_at = 0
 
     # ------------------------------------------------------------------ helpers
     def ref0(self):
@@ -244,6 +273,10 @@ class Machine:
             for f in faults:
                 self.seam.plan[(f["op"], f["nth"])] = (f["kind"], f.get("phase", "early"))
         for idx, op in enumerate(ops):
+            if idx < self.start_at:
+                continue
+            if self.dry and op["op"] not in STRUCTURAL:
+                continue
             if self.seam is not None:
                 self.seam.begin_op(idx)
             self.used_specs = []
@@ -308,17 +341,23 @@ class Machine:
     def op_new(self, op):
         cls = op["cls"]
         kw = op.get("kw") or {}
-        s = self.new_solver(cls, kw)
+        s = None if self.dry else self.new_solver(cls, kw)
         mode = "contain" if (cls in APPROX_CLASSES or cls == "SolverReplacementVSA") else "exact"
         self.handles.append(Handle(s, self.ref0(), cls, kw, [], mode, "new"))
         return ["h", len(self.handles) - 1]
 
     def op_branch(self, op):
         h = self.H(op)
-        st, val = self.call(h.solver.branch)
-        if st != "ok":
-            self.unexpected(h, op, val)
-        self.handles.append(Handle(val, h.ref.copy(), h.cls, h.kw, list(h.lineage), h.mode, "branch"))
+        pi = self.handles.index(h)
+        if self.dry:
+            nh = Handle(None, h.ref.copy(), h.cls, h.kw, list(h.lineage), h.mode, "branch", parent=pi)
+        else:
+            st, val = self.call(h.solver.branch)
+            if st != "ok":
+                self.unexpected(h, op, val)
+            nh = Handle(val, h.ref.copy(), h.cls, h.kw, list(h.lineage), h.mode, "branch", parent=pi)
+        nh.added = list(h.added)
+        self.handles.append(nh)
         return ["h", len(self.handles) - 1]
 
     def op_drop(self, op):
@@ -332,15 +371,20 @@ class Machine:
     def op_pickle(self, op):
         h = self.H(op)
         proto = op.get("proto", pickle.HIGHEST_PROTOCOL)
-        try:
-            blob = pickle.dumps(h.solver, proto)
-            s2 = pickle.loads(blob)
-        except Exception as e:  # noqa: BLE001
-            self.unexpected(h, op, e, "pickle-failed")
-        if op.get("mode", "replace") == "replace":
+        mode = op.get("mode", "replace")
+        s2 = None
+        if not self.dry:
+            try:
+                blob = pickle.dumps(h.solver, proto)
+                s2 = pickle.loads(blob)
+            except Exception as e:  # noqa: BLE001
+                self.unexpected(h, op, e, "pickle-failed")
+        if mode == "replace":
             h.solver = s2
-            return ["replaced", len(blob) > 0]
-        self.handles.append(Handle(s2, h.ref.copy(), h.cls, h.kw, list(h.lineage), h.mode, "pickle"))
+            return ["replaced"]
+        nh = Handle(s2, h.ref.copy(), h.cls, h.kw, list(h.lineage), h.mode, "pickle", parent=h.parent)
+        nh.added = list(h.added)
+        self.handles.append(nh)
         return ["h", len(self.handles) - 1]
 
     def op_forget(self, op):
@@ -364,14 +408,22 @@ class Machine:
     def op_add(self, op):
         h = self.H(op)
         self.used_specs = list(op["cs"]) + h.lineage
+        if self.dry:
+            for c in op["cs"]:
+                h.ref.add(c)
+                h.lineage.append(c)
+            return ["added"]
         cs = self.asts(op["cs"])
         arg = cs if (len(cs) != 1 or op.get("as_list", True)) else cs[0]
         res = self.call(h.solver.add, arg)
         st, val = res
         # the reference takes the constraints whatever claripy says: add has no answer of its own
-        for c in op["cs"]:
+        for c, a in zip(op["cs"], cs):
             h.ref.add(c)
             h.lineage.append(c)
+            h.added.append(a.hash())
+            if getattr(a, "op", None) == "And":
+                h.added.extend(x.hash() for x in a.args)
         self.stats["adds"] += 1
         if self.check_faulted(h, op, res):
             return ["fault-raised", type(val).__name__]
@@ -651,6 +703,230 @@ class Machine:
 
     def op_g_is_false(self, op):
         return self._gtruth(op, False)
+
+
+    # ------------------------------------------------------------------ ops: merge / combine / split (C15)
+    def _others(self, op, h):
+        live = [x for x in self.handles if x.alive]
+        out = []
+        for j in op.get("others", []):
+            o = live[j % len(live)]
+            if o is h or o in out:
+                continue
+            out.append(o)
+        return out
+
+    def op_merge(self, op):
+        h = self.H(op)
+        others = self._others(op, h)
+        if not others:
+            raise _Skip("no others")
+        conds = op["conds"][:1 + len(others)]
+        if len(conds) != 1 + len(others):
+            raise _Skip("conds mismatch")
+        anc = None
+        if op.get("ancestor") is not None:
+            live = [x for x in self.handles if x.alive]
+            anc = live[op["ancestor"] % len(live)]
+            # only a true common ancestor may be passed
+            for x in [h, *others]:
+                if not self._is_ancestor(anc, x):
+                    raise _Skip("not an ancestor")
+        group = [h, *others]
+        if len({x.cls for x in group}) != 1 or (anc is not None and anc.cls != h.cls):
+            raise _Skip("mixed classes")
+        self.used_specs = list(conds) + [c for x in group for c in x.lineage] + (anc.lineage if anc else [])
+        # reference
+        uni = self.ref0().universe
+        fs = [S.compile_spec(c, self.variables, self.order) for c in conds]
+        if anc is None:
+            keep = set()
+            for x, f in zip(group, fs):
+                keep.update(m for m in x.ref.M if f(*m))
+            M = [m for m in uni if m in keep]
+            lineage = [c for x in group for c in x.lineage] + list(conds)
+        else:
+            M = [m for m in anc.ref.M if any(f(*m) for f in fs)]
+            lineage = list(anc.lineage) + list(conds)
+        newref = self.ref0().with_models(M)
+        if self.dry:
+            self.handles.append(Handle(None, newref, h.cls, h.kw, lineage, h.mode, "merge"))
+            return ["h", len(self.handles) - 1]
+        ca = self.asts(conds)
+        k = {}
+        if anc is not None:
+            k["common_ancestor"] = anc.solver
+        res = self.call(h.solver.merge, [o.solver for o in others], ca, **k)
+        st, val = res
+        if st != "ok":
+            self.unexpected(h, op, val)
+        merged = val[1]
+        nh = Handle(merged, newref, h.cls, h.kw, lineage, h.mode, "merge")
+        self.handles.append(nh)
+        return ["h", len(self.handles) - 1, bool(val[0])]
+
+    def _is_ancestor(self, anc, x):
+        seen = 0
+        while x is not None and seen < 100:
+            if x is anc:
+                return True
+            x = self.handles[x.parent] if x.parent is not None else None
+            seen += 1
+        return False
+
+    def op_combine(self, op):
+        h = self.H(op)
+        others = self._others(op, h)
+        if not others:
+            raise _Skip("no others")
+        group = [h, *others]
+        if len({x.cls for x in group}) != 1:
+            raise _Skip("mixed classes")
+        self.used_specs = [c for x in group for c in x.lineage]
+        keep = set(h.ref.M)
+        for o in others:
+            keep &= set(o.ref.M)
+        M = [m for m in h.ref.M if m in keep]
+        lineage = [c for x in group for c in x.lineage]
+        newref = self.ref0().with_models(M)
+        if self.dry:
+            self.handles.append(Handle(None, newref, h.cls, h.kw, lineage, h.mode, "combine"))
+            return ["h", len(self.handles) - 1]
+        res = self.call(h.solver.combine, [o.solver for o in others])
+        st, val = res
+        if st != "ok":
+            self.unexpected(h, op, val)
+        self.handles.append(Handle(val, newref, h.cls, h.kw, lineage, h.mode, "combine"))
+        return ["h", len(self.handles) - 1]
+
+    def op_split(self, op):
+        h = self.H(op)
+        if self.dry:
+            raise HarnessError("split cannot be replayed dry")
+        self.used_specs = list(h.lineage)
+        try:
+            before = self._conjunct_hashes(h.solver.constraints)
+        except Exception as e:  # noqa: BLE001
+            self.unexpected(h, op, e)
+        res = self.call(h.solver.split)
+        st, val = res
+        if st != "ok":
+            self.unexpected(h, op, val)
+        parts = list(val)
+        # (1) variable sets pairwise disjoint
+        seen = {}
+        for i, p in enumerate(parts):
+            for v in p.variables:
+                if v in seen:
+                    self.bad("split-shares-variable", h, op, variable=v, parts=[seen[v], i])
+                seen[v] = i
+        # (2) every conjunct exactly once
+        after = []
+        for p in parts:
+            after.extend(self._conjunct_hashes(p.constraints))
+        if sorted(before) != sorted(after):
+            self.bad("split-conjuncts-differ", h, op, before=len(before), after=len(after),
+                     missing=len(set(before) - set(after)), extra=len(set(after) - set(before)),
+                     duplicated=len(after) - len(set(after)))
+        # (3) jointly equivalent: each part becomes a handle whose reference is the projection of M on its variables
+        out = []
+        if h.ref.M:
+            for p in parts:
+                pv = [i for i, n in enumerate(self.order) if n in p.variables]
+                proj = {tuple(m[i] for i in pv) for m in h.ref.M}
+                M = [m for m in self.ref0().universe if tuple(m[i] for i in pv) in proj]
+                nh = Handle(p, self.ref0().with_models(M), h.cls, h.kw, list(h.lineage), h.mode, "split")
+                self.handles.append(nh)
+                out.append(len(self.handles) - 1)
+        return ["parts", len(parts), out]
+
+    def _conjunct_hashes(self, cons):
+        hs = []
+        for c in cons:
+            if getattr(c, "op", None) == "And":
+                hs.extend(a.hash() for a in c.args)
+            else:
+                hs.append(c.hash())
+        return hs
+
+    # ------------------------------------------------------------------ ops: unsat core (C16)
+    def op_unsat_core(self, op):
+        h = self.H(op)
+        self.used_specs = list(h.lineage)
+        if self.dry:
+            return ["dry"]
+        res = self.call(h.solver.unsat_core)
+        self.stats["queries"] += 1
+        if self.check_faulted(h, op, res):
+            return ["fault-raised"]
+        st, val = res
+        if st != "ok":
+            self.unexpected(h, op, val)
+        try:
+            core = list(val)
+        except TypeError:
+            self.bad("core-not-a-sequence", h, op, got=repr(val)[:100])
+        if h.ref.M:
+            if len(core) != 0:
+                self.bad("core-nonempty-on-sat", h, op, size=len(core))
+            return ["core", 0]
+        Base = self.cl.ast.Base
+        Bool = self.cl.ast.Bool
+        tracked = set(h.added)
+        try:
+            tracked.update(self._conjunct_hashes(h.solver.constraints))
+            tracked.update(c.hash() for c in h.solver.constraints)
+        except Exception:  # noqa: BLE001
+            pass
+        for el in core:
+            if not isinstance(el, Base) or not isinstance(el, Bool):
+                self.bad("core-element-not-a-constraint", h, op, element_type=type(el).__name__, size=len(core))
+            if el.hash() not in tracked:
+                self.bad("core-element-not-tracked", h, op, element=str(el)[:120], size=len(core))
+        # conjunction unsatisfiable: evaluate each element on all assignments through claripy's concrete backend
+        if len(core) == 0:
+            self.bad("core-empty-on-unsat", h, op)
+        alive = self.ref0().universe
+        for el in core:
+            alive = [m for m in alive if self._concrete_truth(el, m)]
+            if not alive:
+                break
+        if alive:
+            self.bad("core-satisfiable", h, op, size=len(core), witness=list(alive[0]))
+        return ["core", len(core)]
+
+    def _concrete_truth(self, ast, m):
+        cl = self.cl
+        rep = {}
+        for n, v in zip(self.order, m):
+            w = self.variables[n]
+            if n not in ast.variables:
+                continue
+            if w == 0:
+                rep[cl.BoolS(n, explicit_name=True).hash()] = cl.BoolV(bool(v))
+            else:
+                rep[cl.BVS(n, w, explicit_name=True).hash()] = cl.BVV(v, w)
+        r = cl.replace_dict(ast, rep)
+        try:
+            return bool(cl.backends.concrete.eval(r, 1)[0])
+        except ZeroDivisionError:
+            # SMT-LIB defines division by zero; claripy's concrete backend does not: cannot judge this element here
+            raise _Skip("concrete backend cannot evaluate core element (division by zero)") from None
+
+    # ------------------------------------------------------------------ ops: expression pickling (C18)
+    def op_pickle_expr(self, op):
+        e = op["e"]
+        self.used_specs = [e]
+        if self.dry:
+            return ["dry"]
+        a = self.ast(e)
+        try:
+            b = pickle.loads(pickle.dumps(a, op.get("proto", pickle.HIGHEST_PROTOCOL)))
+        except Exception as ex:  # noqa: BLE001
+            raise Violation("pickle-failed", {"h": None, "cls": None, "op": op["op"], "exc": self.exc_detail(ex)}) from None
+        if b is not a:
+            raise Violation("unpickled-expression-not-identical", {"h": None, "cls": None, "op": op["op"], "e": e})
+        return ["same"]
 
 
 class _Skip(Exception):
